@@ -58,9 +58,13 @@ class Layout(object):
             self.includes.append(sorted(inc))
 
     stems = None
+    exts = None           # per file: extension (default '.prophy'); the outputs are named after the stem in any case
 
     def stem(self, i):
         return self.stems[i] if self.stems else 'f%d' % i
+
+    def filename(self, i):
+        return self.stem(i) + (self.exts[i] if self.exts else '.prophy')
 
     def rel_dir(self, i):
         """Directory (relative to the root) that holds file i."""
@@ -71,8 +75,8 @@ class Layout(object):
     def include_text(self, i, j):
         """How file i names file j in its #include."""
         if self.arrangement == 'relpath':
-            return os.path.relpath(os.path.join(self.rel_dir(j), self.stem(j) + '.prophy'), self.rel_dir(i) or '.')
-        return self.stem(j) + '.prophy'
+            return os.path.relpath(os.path.join(self.rel_dir(j), self.filename(j)), self.rel_dir(i) or '.')
+        return self.filename(j)
 
     def include_dirs(self, root):
         if self.arrangement == 'subdirs':
@@ -100,7 +104,7 @@ class Layout(object):
         for i in range(self.nfiles):
             d = os.path.join(root, self.rel_dir(i))
             os.makedirs(d, exist_ok=True)
-            p = os.path.join(d, self.stem(i) + '.prophy')
+            p = os.path.join(d, self.filename(i))
             with open(p, 'w') as f:
                 f.write(self.text(i))
             paths.append(p)
@@ -216,6 +220,9 @@ def layouts(draw, opts=None, min_files=2, max_files=5, transitive_focus=3, blank
             if draw(st.booleans()):
                 lay.decor[i] = (draw(st.sampled_from([None, ' // see "types" for details', ' /* "quoted" */', ' // x'])),
                                 draw(st.sampled_from([None, '', '\n// end', '\n// end of "file"', ' // tail', '\n/* bye */'])))
+    # the language does not prescribe '.prophy': units.inc, base.def, noext
+    if draw(st.integers(0, 3)) == 0:
+        lay.exts = [draw(st.sampled_from(['.prophy', '.inc', '.def', '.pr', ''])) for _ in range(lay.nfiles)]
     # a file is sometimes named after a type it defines (Point.prophy holding struct Point)
     if draw(st.integers(0, 2)) == 0:
         stems = []
